@@ -61,7 +61,7 @@ func init() {
 	Register(&CheckSpec{
 		Prop: "C13", World: "diff",
 		Gen: func(t *rapid.T) *Program {
-			p := GenStoreProgram(t, StoreProfile{Backends: []string{"both"}, Limits: true, Retention: true, ExplicitTS: true, PaddedIDs: true, MaxSteps: 40})
+			p := GenStoreProgram(t, StoreProfile{Backends: []string{"both"}, Limits: true, Retention: true, ExplicitTS: true, PaddedIDs: true, Headers: true, MaxSteps: 40})
 			p.World = "diff"
 			// Documented memory-only behaviour (docs/configuration.md,
 			// delivered_retention): with delivered retention on, max_depth also
